@@ -900,3 +900,113 @@ package log
 //@   ensures[C07:rep] json_rep(enc.last, stk[enc]) && stk_ok(stk[enc])
 //@   ensures[C07:token] enc.buf.out == bsnoc(binit(enc.buf.out), 34) && Ext(bsnoc(old(preV(enc)), 34), binit(enc.buf.out), RP(v, len(v)))
 
+
+//@ func (*JSONEncoder).AppendReflect
+//@   requires jsonOK(enc) && value_legal(stk[enc])
+//@   modifies enc.last, enc.buf.out, lastMarshal, lastMarshalErr
+//@   ghost stk[enc] = stk_child_done(old(stk[enc]))
+//@   ensures[C07:rep] json_rep(enc.last, stk[enc]) && stk_ok(stk[enc])
+//@   ensures[C07:marshalled] lastMarshalErr == nil ==> enc.buf.out == bapp(old(preV(enc)), content(lastMarshal))
+//@   ensures[C07:unmarshallable-as-string] lastMarshalErr != nil ==> enc.buf.out == bsnoc(binit(enc.buf.out), 34) && Ext(bsnoc(old(preV(enc)), 34), binit(enc.buf.out), RP(error.Error(lastMarshalErr), len(error.Error(lastMarshalErr))))
+
+// ---- C08: the text encoder: key=value pairs at the top level, the embedded JSON encoder below --------------
+//@ spec fun textOK(enc *TextEncoder) bool = enc != nil && enc.buf != nil && enc.jsonEncoder != nil && enc.jsonEncoder.buf == enc.buf && jsonOK(enc.jsonEncoder) && enc.jsonDepth >= 0 && enc.jsonDepth == stk_height(stk[enc.jsonEncoder]) - 1 && (enc.jsonDepth == 0 ==> stk[enc.jsonEncoder] == stk0)
+//@ spec fun jenc(enc *TextEncoder) *JSONEncoder = enc.jsonEncoder
+
+//@ func NewTextEncoder
+//@   requires buf != nil
+//@   modifies nothing
+//@   ghost stk[result.jsonEncoder] = stk0
+//@   ensures[C08:fresh-encoder] fresh(result) && result.buf == buf && result.separator == separator && !result.hasWritten && textOK(result) && result.jsonDepth == 0
+
+//@ func (*TextEncoder).AppendEncoderBegin
+//@   modifies nothing
+//@ func (*TextEncoder).AppendEncoderEnd
+//@   modifies nothing
+
+//@ func (*TextEncoder).AppendObjectBegin
+//@   requires textOK(enc) && enc.jsonDepth < 127 && value_legal(stk[enc.jsonEncoder])
+//@   modifies enc.jsonDepth, enc.jsonEncoder.last, enc.buf.out
+//@   ghost stk[enc.jsonEncoder] = stk_push(old(stk[enc.jsonEncoder]), 1)
+//@   ensures[C08:depth-bookkeeping] textOK(enc) && enc.jsonDepth == old(enc.jsonDepth) + 1
+//@   ensures[C08:same-token-as-json] enc.buf.out == bsnoc(old(preV(enc.jsonEncoder)), 123)
+
+//@ func (*TextEncoder).AppendObjectEnd
+//@   requires textOK(enc) && end_obj_legal(stk[enc.jsonEncoder])
+//@   modifies enc.jsonDepth, enc.jsonEncoder.last, enc.buf.out
+//@   ghost stk[enc.jsonEncoder] = old(enc.jsonDepth) == 1 ? stk0 : stk_pop(old(stk[enc.jsonEncoder]))
+//@   ensures[C08:depth-bookkeeping] textOK(enc) && enc.jsonDepth == old(enc.jsonDepth) - 1
+//@   ensures[C08:same-token-as-json] enc.buf.out == bsnoc(old(enc.buf.out), 125)
+
+//@ func (*TextEncoder).AppendArrayBegin
+//@   requires textOK(enc) && enc.jsonDepth < 127 && value_legal(stk[enc.jsonEncoder])
+//@   modifies enc.jsonDepth, enc.jsonEncoder.last, enc.buf.out
+//@   ghost stk[enc.jsonEncoder] = stk_push(old(stk[enc.jsonEncoder]), 2)
+//@   ensures[C08:depth-bookkeeping] textOK(enc) && enc.jsonDepth == old(enc.jsonDepth) + 1
+//@   ensures[C08:same-token-as-json] enc.buf.out == bsnoc(old(preV(enc.jsonEncoder)), 91)
+
+//@ func (*TextEncoder).AppendArrayEnd
+//@   requires textOK(enc) && end_arr_legal(stk[enc.jsonEncoder])
+//@   modifies enc.jsonDepth, enc.jsonEncoder.last, enc.buf.out
+//@   ghost stk[enc.jsonEncoder] = old(enc.jsonDepth) == 1 ? stk0 : stk_pop(old(stk[enc.jsonEncoder]))
+//@   ensures[C08:depth-bookkeeping] textOK(enc) && enc.jsonDepth == old(enc.jsonDepth) - 1
+//@   ensures[C08:same-token-as-json] enc.buf.out == bsnoc(old(enc.buf.out), 93)
+
+//@ func (*TextEncoder).AppendKey
+//@   requires textOK(enc) && (enc.jsonDepth > 0 ==> key_legal(stk[enc.jsonEncoder]))
+//@   modifies enc.hasWritten, enc.jsonEncoder.last, enc.buf.out
+//@   ghost stk[enc.jsonEncoder] = old(enc.jsonDepth) > 0 ? stk_key(old(stk[enc.jsonEncoder])) : old(stk[enc.jsonEncoder])
+//@   ensures[C08:depth-bookkeeping] textOK(enc) && enc.jsonDepth == old(enc.jsonDepth)
+//@   ensures[C08:nested-key-as-json] old(enc.jsonDepth) > 0 ==> enc.hasWritten == old(enc.hasWritten) && enc.buf.out == bsnoc(bsnoc(binit(binit(enc.buf.out)), 34), 58) && Ext(bsnoc(old(preK(enc.jsonEncoder)), 34), binit(binit(enc.buf.out)), RP(key, len(key)))
+//@   ensures[C08:top-level-key] old(enc.jsonDepth) == 0 ==> enc.hasWritten && enc.buf.out == bsnoc(binit(enc.buf.out), 61) && Ext(old(enc.hasWritten) ? bapp(old(enc.buf.out), enc.separator) : old(enc.buf.out), binit(enc.buf.out), RP(key, len(key)))
+
+//@ func (*TextEncoder).AppendBool
+//@   requires textOK(enc) && (enc.jsonDepth > 0 ==> value_legal(stk[enc.jsonEncoder]))
+//@   modifies enc.jsonEncoder.last, enc.buf.out
+//@   ghost stk[enc.jsonEncoder] = old(enc.jsonDepth) > 0 ? stk_child_done(old(stk[enc.jsonEncoder])) : old(stk[enc.jsonEncoder])
+//@   ensures[C08:depth-bookkeeping] textOK(enc) && enc.jsonDepth == old(enc.jsonDepth)
+//@   ensures[C08:nested-as-json] old(enc.jsonDepth) > 0 ==> enc.buf.out == bapp(old(preV(enc.jsonEncoder)), fmt_bool(v))
+//@   ensures[C08:top-level-same-token] old(enc.jsonDepth) == 0 ==> enc.buf.out == bapp(old(enc.buf.out), fmt_bool(v))
+
+//@ func (*TextEncoder).AppendInt64
+//@   requires textOK(enc) && (enc.jsonDepth > 0 ==> value_legal(stk[enc.jsonEncoder]))
+//@   modifies enc.jsonEncoder.last, enc.buf.out
+//@   ghost stk[enc.jsonEncoder] = old(enc.jsonDepth) > 0 ? stk_child_done(old(stk[enc.jsonEncoder])) : old(stk[enc.jsonEncoder])
+//@   ensures[C08:depth-bookkeeping] textOK(enc) && enc.jsonDepth == old(enc.jsonDepth)
+//@   ensures[C08:nested-as-json] old(enc.jsonDepth) > 0 ==> enc.buf.out == bapp(old(preV(enc.jsonEncoder)), fmt_int(v, 10))
+//@   ensures[C08:top-level-same-token] old(enc.jsonDepth) == 0 ==> enc.buf.out == bapp(old(enc.buf.out), fmt_int(v, 10))
+
+//@ func (*TextEncoder).AppendUint64
+//@   requires textOK(enc) && (enc.jsonDepth > 0 ==> value_legal(stk[enc.jsonEncoder]))
+//@   modifies enc.jsonEncoder.last, enc.buf.out
+//@   ghost stk[enc.jsonEncoder] = old(enc.jsonDepth) > 0 ? stk_child_done(old(stk[enc.jsonEncoder])) : old(stk[enc.jsonEncoder])
+//@   ensures[C08:depth-bookkeeping] textOK(enc) && enc.jsonDepth == old(enc.jsonDepth)
+//@   ensures[C08:nested-as-json] old(enc.jsonDepth) > 0 ==> enc.buf.out == bapp(old(preV(enc.jsonEncoder)), fmt_uint(v, 10))
+//@   ensures[C08:top-level-same-token] old(enc.jsonDepth) == 0 ==> enc.buf.out == bapp(old(enc.buf.out), fmt_uint(v, 10))
+
+//@ func (*TextEncoder).AppendFloat64
+//@   requires textOK(enc) && (enc.jsonDepth > 0 ==> value_legal(stk[enc.jsonEncoder]))
+//@   modifies enc.jsonEncoder.last, enc.buf.out
+//@   ghost stk[enc.jsonEncoder] = old(enc.jsonDepth) > 0 ? stk_child_done(old(stk[enc.jsonEncoder])) : old(stk[enc.jsonEncoder])
+//@   ensures[C08:depth-bookkeeping] textOK(enc) && enc.jsonDepth == old(enc.jsonDepth)
+//@   ensures[C08:nested-as-json] old(enc.jsonDepth) > 0 && float_finite(v) ==> enc.buf.out == bapp(old(preV(enc.jsonEncoder)), fmt_float(v))
+//@   ensures[C08:nested-non-finite-as-json] old(enc.jsonDepth) > 0 && !float_finite(v) ==> enc.buf.out == bsnoc(bapp(bsnoc(old(preV(enc.jsonEncoder)), 34), fmt_float(v)), 34)
+//@   ensures[C08:top-level-same-token-unquoted] old(enc.jsonDepth) == 0 ==> enc.buf.out == bapp(old(enc.buf.out), fmt_float(v))
+
+//@ func (*TextEncoder).AppendString
+//@   requires textOK(enc) && (enc.jsonDepth > 0 ==> value_legal(stk[enc.jsonEncoder]))
+//@   modifies enc.jsonEncoder.last, enc.buf.out
+//@   ghost stk[enc.jsonEncoder] = old(enc.jsonDepth) > 0 ? stk_child_done(old(stk[enc.jsonEncoder])) : old(stk[enc.jsonEncoder])
+//@   ensures[C08:depth-bookkeeping] textOK(enc) && enc.jsonDepth == old(enc.jsonDepth)
+//@   ensures[C08:nested-as-json] old(enc.jsonDepth) > 0 ==> enc.buf.out == bsnoc(binit(enc.buf.out), 34) && Ext(bsnoc(old(preV(enc.jsonEncoder)), 34), binit(enc.buf.out), RP(v, len(v)))
+//@   ensures[C08:top-level-escaped-unquoted] old(enc.jsonDepth) == 0 ==> Ext(old(enc.buf.out), enc.buf.out, RP(v, len(v)))
+
+//@ func (*TextEncoder).AppendReflect
+//@   requires textOK(enc) && (enc.jsonDepth > 0 ==> value_legal(stk[enc.jsonEncoder]))
+//@   modifies enc.jsonEncoder.last, enc.buf.out, lastMarshal, lastMarshalErr
+//@   ghost stk[enc.jsonEncoder] = old(enc.jsonDepth) > 0 ? stk_child_done(old(stk[enc.jsonEncoder])) : old(stk[enc.jsonEncoder])
+//@   ensures[C08:depth-bookkeeping] textOK(enc) && enc.jsonDepth == old(enc.jsonDepth)
+//@   ensures[C08:top-level-marshalled] old(enc.jsonDepth) == 0 && lastMarshalErr == nil ==> enc.buf.out == bapp(old(enc.buf.out), content(lastMarshal))
+//@   ensures[C08:top-level-error-text-escaped] old(enc.jsonDepth) == 0 && lastMarshalErr != nil ==> Ext(old(enc.buf.out), enc.buf.out, RP(error.Error(lastMarshalErr), len(error.Error(lastMarshalErr))))
+//@   ensures[C08:nested-as-json] old(enc.jsonDepth) > 0 && lastMarshalErr == nil ==> enc.buf.out == bapp(old(preV(enc.jsonEncoder)), content(lastMarshal))
+
